@@ -61,3 +61,8 @@ CASES += [
     {"name": "tensor builder returns the stored tensor when only the theory matches", "kind": "mutant", "rule": "C15-E5", "edits": [
         (O, "        from ..qm import LindbladForm\n\n        from ..core.managers import eigenbasis_of\n\n        if self._built:\n            ham = self.get_Hamiltonian()", "        from ..qm import LindbladForm\n\n        from ..core.managers import eigenbasis_of\n\n        if self._has_relaxation_tensor and relaxation_theory == getattr(self, \"_last_theory\", None):\n            return self.RelaxationTensor, self.RelaxationHamiltonian\n        self._last_theory = relaxation_theory\n        if self._built:\n            ham = self.get_Hamiltonian()", 1)]},
 ]
+
+CASES += [
+    {"name": "state-vector refinement divides the current step (seeded change of round 5)", "kind": "mutant", "rule": "C15-E7", "edits": [
+        ("quantarhei/qm/propagators/svpropagator.py", "        self.dt = self.Odt/self.Nref", "        self.dt = self.dt/self.Nref", 1)]},
+]
